@@ -7,6 +7,12 @@ VERIF = os.path.dirname(os.path.dirname(os.path.abspath(__file__)))
 
 PBT = 'property-based testing (Hypothesis generators, seeded, sharded x16) against '
 
+KERNEL_NOTE = ('Trusted base: the simulation kernel (virtual clock; baton scheduler with cooperative '
+               'switching at blocking points only; VQueue/VEvent/VThread models of queue.Queue/'
+               'threading.Event/Thread; VLoop; WSGI/ASGI gateway and WebSocket fakes following the '
+               'simple-websocket / ASGI contracts). Other async drivers and real sockets are not '
+               'exercised.')
+
 CHECKS = {
     'C01': dict(
         technique=PBT + 'an independent reference codec + exhaustive catalogue product',
@@ -18,6 +24,46 @@ CHECKS = {
         note='Trusts stdlib json/base64 as the reference. Container ints >= 10^100 are outside the '
              'stated domain (documented parse guard) and only checked for totality.',
         design='4/C01'),
+    'C03': dict(
+        technique='stateful property-based testing: Hypothesis-drawn session histories executed '
+                  'against the real servers under a deterministic scheduler/clock, per-session '
+                  'delivery oracle over uniquely tagged messages',
+        text='Generated search over histories (quick 16x150, thorough 16x3000; <=30/60 actions) of '
+             'sends, polls (pending/overlapping), upgrade-handshake prefixes, pongs and clock steps '
+             'on both servers; oracle: tagged MESSAGE sequence per session is duplicate-free, in '
+             'send order, never foreign, polls return everything queued, polls during an upgrade '
+             'return only NOOP, everything sent to a surviving session arrives after drain. '
+             'Bounded exploration, not exhaustive.',
+        note=KERNEL_NOTE, design='4/C03'),
+    'C04': dict(
+        technique='stateful property-based testing with a reference body/frame decoder as oracle',
+        text='Generated histories whose POST bodies / frames use every packet type 0-9, every '
+             'payload kind, CLOSE/invalid packets at every position, over-limit bodies; oracle: '
+             'model of the statement (exactly-once, wire order, per-type effect, nothing from '
+             'refused bodies). Units are judged when issued into a live, quiet session; other '
+             'units only get the at-most-once / no-invention checks.',
+        note=KERNEL_NOTE + ' Packets after a CLOSE or refused type in the same body are an open '
+             'cell.', design='4/C04'),
+    'C05': dict(
+        technique='stateful property-based testing; event-grammar and cause/reason oracle over '
+                  'the application handler log',
+        text='Generated histories heavy on end causes (CLOSE, disconnect(sid)/disconnect(), '
+             'silence, socket closed/failed, poll timeout, protocol errors), sequential and inside '
+             'one unsettled step, with connect outcomes and handler exceptions; oracle: connect '
+             '(message)* disconnect? per sid, one disconnect at most, none after, reason belongs to '
+             'a cause that had occurred, and to the single cause when it was injected alone.',
+        note=KERNEL_NOTE + ' Events caused by units already in flight when the session ended are '
+             'exempt (statement: received afterwards).', design='4/C05'),
+    'C06': dict(
+        technique='stateful property-based testing; transport() compared with a handshake model '
+                  'at every quiet point',
+        text='Generated histories heavy on upgrade sockets (all frame sequences, closures/faults '
+             'at every point, concurrent polls/sends, second attempts, ws-first opens, '
+             'transport=polling upgrade requests, transports/allow_upgrades settings); oracle: '
+             'transport(sid) == model, refused attempts never accepted, nothing queued is lost '
+             'after failed handshakes, disallowed transports never used.',
+        note=KERNEL_NOTE + ' allow_upgrades=False with an explicit upgrade attempt is an open '
+             'cell.', design='4/C06'),
 }
 
 NOT_YET = {}
